@@ -34,7 +34,7 @@ def floors(tier):
     return {"evaluations": 800 if q else 12000, "distinct_nontrivial": 250 if q else 4000, "kind:synth": 500 if q else 8000,
             "kind:curated": 200 if q else 3000, "cycles_checked": 1000 if q else 20000, "no_cycle": 40 if q else 600,
             "start:998": 80 if q else 1200, "start:5000": 80 if q else 1200, "self_loops": 100 if q else 1500, "mem_cycles": 10 if q else 150,
-            "flags_on": 150 if q else 2500, "summary_checked": 700 if q else 10000, "refdeps_compared": 400 if q else 6000}
+            "flags_on": 150 if q else 2500, "summary_checked": 700 if q else 10000, "lcd_column_checked": 400 if q else 6000, "refdeps_compared": 400 if q else 6000}
 
 
 def plan(tier, seed):
@@ -131,6 +131,17 @@ def judge(isa, kernel_ast, forms, dg, mm, sem, parser, text, flags, start, R, ca
         want = max(obs.values()) if obs else 0.0
         if abs(float(d["Summary"]["LCD"]) - want) > 1e-6:
             R.violation("summary/not-the-maximum", "summary LCD %s, maximum over the reported cycles %s" % (d["Summary"]["LCD"], want), case)
+        # the per-line LCD values (LCD column) mark the members of one cycle attaining the maximum, with its per-edge latencies
+        marked = tuple(sorted((i, round(float(row["LatencyLCD"]), 6)) for i, row in enumerate(d["Kernel"]) if float(row["LatencyLCD"]) != 0.0))
+        maxima = [c for c, l in obs.items() if abs(l - want) <= 1e-6]
+        if obs:
+            R.count("lcd_column_checked")
+            nz = [tuple((i, w) for i, w in c if w != 0.0) for c in maxima]
+            if marked not in nz:
+                R.violation("column/does-not-mark-a-maximum-cycle", "per-line LCD values mark %s, cycles attaining the maximum %.3f: %s"
+                            % (list(marked), want, [list(c) for c in maxima][:3]), case)
+        elif marked:
+            R.violation("column/marks-lines-without-any-cycle", "per-line LCD values %s although no loop-carried dependency is reported" % (list(marked),), case)
     except Exception as e:  # noqa
         R.exception(e, case, prefix="summary/")
     return len(ref) >= 2 or any(len(c) >= 3 for c in ref)
